@@ -146,7 +146,7 @@ pub fn bb_answer<R: BBIFileRead>(r: &mut BigBedRead<R>, q: &S) -> S {
 
 /// A whole query history through one fresh caching reader.
 pub fn bb_history(bytes: &[u8], qs: &S) -> S {
-    let r = BigBedRead::open(Cursor::new(bytes.to_vec())).expect("reopen for the caching reader");
+    let r = BigBedRead::open(crate::ShortReads::<_, 4096>(Cursor::new(bytes.to_vec()))).expect("reopen for the caching reader");
     let mut r = r.cached();
     S::L(qs.l().iter().map(|q| bb_interval(&mut r, &q.at(0).string(), q.at(1).u32(), q.at(2).u32())).collect())
 }
@@ -163,7 +163,7 @@ pub fn open_err(e: &bigtools::BigBedReadOpenError) -> S {
 /// The read-back half: file bytes (as the flags ask) and the answers.
 pub fn read_back(c: &S, o: &Opts, bytes: Vec<u8>) -> S {
     let flags = c.at(6).u32();
-    let mut r = match BigBedRead::open(Cursor::new(bytes.clone())) {
+    let mut r = match BigBedRead::open(crate::ShortReads::<_, 61>(Cursor::new(bytes.clone()))) {
         Ok(r) => r,
         Err(e) => {
             let file_s = if flags & 1 != 0 && !o.compress { S::from_bytes(&bytes) } else { S::L(vec![]) };
